@@ -274,7 +274,7 @@ func (c *Check) gochannelRoles(id string) *GCRoles {
 func comparesPointersOf(fn *ssa.Function, n *types.Named) bool {
 	found := false
 	AllInstrs(fn, func(in ssa.Instruction) {
-		if bo, ok := in.(*ssa.BinOp); ok && bo.Op == token.EQL && NamedOf(bo.X.Type()) == n && NamedOf(bo.Y.Type()) == n {
+		if bo, ok := in.(*ssa.BinOp); ok && (bo.Op == token.EQL || bo.Op == token.NEQ) && NamedOf(bo.X.Type()) == n && NamedOf(bo.Y.Type()) == n {
 			found = true
 		}
 	})
@@ -377,6 +377,11 @@ func gcSafety(c *Check, P string, r *GCRoles) {
 	c11PublishSection(c, S, r)
 	c11Handoff(c, S, r)
 	c05NoOtherLockAcrossWait(c, S, r)
+	// the deliver function runs once per subscription, concurrently: what is shared between those runs is not written
+	c04NoSharedWrites(c, S+".O6", r)
+	// a blocking Publish holds the subscribers lock and the topic mutex while it waits for the completion signal of the
+	// fan-out: that signal exists and is raised on every path, or the Pub/Sub (replays included) stands still
+	c05AckedByAll(c, S, r)
 }
 
 // closedVerdictEdges: for calls of the closed-flag reader in fn, the edges on
